@@ -23,6 +23,89 @@ type Region struct {
 	Classes []string
 	Map     *types.Map // map contents at Ref
 	Text    string
+	Leaves  []string // sort of the leaf at each cell offset (small regions of known type)
+	Via     []viaTag
+	Elem    bool // the region is one whole element of a slice (s[i])
+}
+
+// containsWrite is the condition under which a recorded write lies inside
+// the region.
+func (r Region) containsWrite(w writeRec) string {
+	if r.Map != nil {
+		return "false"
+	}
+	if w.Class != "" && !hasClass(r.Classes, w.Class) {
+		return "false"
+	}
+	idxIn := func(i string) string {
+		if r.IdxHi == "" {
+			return eq(i, r.IdxLo)
+		}
+		return inRange(i, r.IdxLo, r.IdxHi)
+	}
+	switch w.Kind {
+	case "cell":
+		return r.contains(w.Ref, w.Idx, w.Sub)
+	case "subrange":
+		c := and(eq(w.Ref, r.Ref), idxIn(w.Idx))
+		if r.SubHi != "" {
+			c = and(c, "(bvule "+r.SubLo+" "+w.Sub+")", "(bvule "+w.SubHi+" "+r.SubHi+")")
+		}
+		return c
+	case "idxrange":
+		if r.SubHi != "" && !r.Elem {
+			return "false"
+		}
+		if r.IdxHi == "" {
+			return and(eq(w.Ref, r.Ref), eq(w.Idx, r.IdxLo), "(bvule "+w.IdxHi+" (bvadd "+r.IdxLo+" (_ bv1 64)))")
+		}
+		return and(eq(w.Ref, r.Ref), "(bvule "+r.IdxLo+" "+w.Idx+")", "(bvule "+w.IdxHi+" "+r.IdxHi+")")
+	}
+	return "false"
+}
+
+// writeObligations emits, for every heap update recorded while encoding the
+// function, the obligation that it stays inside the modifies clause or
+// touches an object allocated by the function itself.  Together they imply
+// that every cell allocated at entry and outside the clause is unchanged.
+func (f *FnEnc) writeObligations(rs []Region, key string) {
+	seen := map[string]bool{}
+	n := 0
+	for k, w := range f.writes {
+		var allowed string
+		switch w.Kind {
+		case "all":
+			allowed = "false"
+		default:
+			alts := []string{"(>= " + w.Ref + " " + f.st0.alloc + ")"}
+			switch w.Kind {
+			case "subrange":
+				alts = append(alts, eq(w.Sub, w.SubHi)) // empty range
+			case "idxrange":
+				alts = append(alts, eq(w.Idx, w.IdxHi))
+			}
+			if w.Kind != "object" {
+				for _, r := range rs {
+					if c := r.containsWrite(w); c != "false" {
+						alts = append(alts, c)
+					}
+				}
+			}
+			allowed = or(alts...)
+		}
+		sig := w.Guard + "|" + allowed
+		if seen[sig] {
+			continue
+		}
+		seen[sig] = true
+		n++
+		what := w.Kind
+		if w.Class != "" {
+			what += " " + className(w.Class)
+		}
+		f.c.oblige(Item{Guard: w.Guard, Formula: allowed, Name: fmt.Sprintf("%s/frame:write#%d", key, n), Class: "frame", Pos: f.pos(f.writePos[k]),
+			Text: "heap write (" + what + ") stays inside the modifies clause or touches an object allocated here"})
+	}
 }
 
 func (r Region) contains(ref, idx, sub string) string {
@@ -91,9 +174,24 @@ func (f *FnEnc) region(se *SpecEnv, m SExpr) Region {
 	}
 	a, t := se.addrOf(m)
 	n := f.l.cells(t)
-	r := Region{Ref: a.Ref, IdxLo: a.Idx, SubLo: a.Sub, SubHi: a.plusSub(n).Sub, Classes: f.l.classesOf(t), Text: text}
-	if n <= 16 {
+	r := Region{Ref: a.Ref, IdxLo: a.Idx, SubLo: a.Sub, SubHi: a.plusSub(n).Sub, Classes: f.l.classesOf(t), Text: text, Via: a.Via}
+	if ix, ok := m.(SIndex); ok && !f.l.oneCell(t) {
+		_ = ix
+		r.Elem = true
+	}
+	if _, named := t.(*types.Named); named {
+		if _, isStruct := t.Underlying().(*types.Struct); isStruct {
+			r.Via = append(append([]viaTag(nil), r.Via...), viaTag{t, 0})
+		}
+	}
+	if n <= 160 {
 		r.NCells = n
+		func() {
+			defer func() { recover() }()
+			if ls := f.l.leafSorts(t); len(ls) == n {
+				r.Leaves = ls
+			}
+		}()
 	}
 	return r
 }
@@ -105,7 +203,34 @@ func (f *FnEnc) havocRegions(st *State, rs []Region) {
 			f.havocMapAt(st, r.Map, r.Ref)
 			continue
 		}
+		if r.IdxHi == "" && r.SubHi != "" && r.NCells > 0 {
+			// a few cells: cell-level stores of fresh values (kept in the
+			// write log); every class the region's type contains is
+			// havocked at every cell offset, which over-approximates
+			for k := 0; k < r.NCells; k++ {
+				a := Addr{Ref: r.Ref, Idx: r.IdxLo, Sub: bvadd(r.SubLo, bv64(int64(k)))}
+				for _, v := range r.Via {
+					a.Via = append(a.Via, viaTag{v.T, v.Off + k})
+				}
+				if r.Leaves != nil {
+					f.logStore(st, r.Leaves[k], a, f.c.fresh("hv", r.Leaves[k]))
+					continue
+				}
+				for _, so := range r.Classes {
+					f.logStore(st, so, a, f.c.fresh("hv", so))
+				}
+			}
+			continue
+		}
 		for _, so := range r.Classes {
+			switch {
+			case r.IdxHi != "":
+				f.noteWrite(writeRec{Class: so, Kind: "idxrange", Ref: r.Ref, Idx: r.IdxLo, IdxHi: r.IdxHi})
+			case r.SubHi == "":
+				f.noteWrite(writeRec{Class: so, Kind: "idxrange", Ref: r.Ref, Idx: r.IdxLo, IdxHi: bvadd(r.IdxLo, bv64(1))})
+			default:
+				f.noteWrite(writeRec{Class: so, Kind: "subrange", Ref: r.Ref, Idx: r.IdxLo, Sub: r.SubLo, SubHi: r.SubHi})
+			}
 			h := f.heap(st, so)
 			mid := f.c.define("mid", midSort(so), sel(h, r.Ref))
 			var nmid string
@@ -118,20 +243,13 @@ func (f *FnEnc) havocRegions(st *State, rs []Region) {
 				switch {
 				case r.SubHi == "":
 					ninner = f.c.fresh("hvinner", innerSort(so))
-				case r.NCells > 0:
-					// only the cells of this class need to change, but
-					// writing a fresh value to every cell offset is sound
-					ninner = inner
-					for k := 0; k < r.NCells; k++ {
-						ninner = sto(ninner, bvadd(r.SubLo, bv64(int64(k))), f.c.fresh("hv", so))
-					}
 				default:
 					fi := f.c.fresh("hvinner", innerSort(so))
 					ninner = f.c.lambda(so, "(ite "+inRange("k!l", r.SubLo, r.SubHi)+" (select "+fi+" k!l) (select "+inner+" k!l))")
 				}
 				nmid = sto(mid, r.IdxLo, ninner)
 			}
-			st.heaps[so] = f.c.define("H"+className(so), heapSort(so), sto(h, r.Ref, nmid))
+			setHeap(st, so, f.c.define("H"+className(so), heapSort(so), sto(h, r.Ref, nmid)))
 		}
 	}
 }
@@ -140,20 +258,21 @@ func (f *FnEnc) havocMapAt(st *State, mt *types.Map, ref string) {
 	ks := f.mapKeySort(mt)
 	hk := f.mapHasKey(mt)
 	hh := f.lazyHeap(st, hk)
-	st.heaps[hk] = f.c.define("Mhas", f.heapSortOf(hk), sto(hh, ref, f.c.fresh("hvhas", fmt.Sprintf("(Array %s Bool)", ks))))
+	setHeap(st, hk, f.c.define("Mhas", f.heapSortOf(hk), sto(hh, ref, f.c.fresh("hvhas", fmt.Sprintf("(Array %s Bool)", ks)))))
 	for p, so := range f.l.leafSorts(mt.Elem()) {
 		vk := f.mapValKey(mt, p, so)
 		vh := f.lazyHeap(st, vk)
-		st.heaps[vk] = f.c.define("Mval", f.heapSortOf(vk), sto(vh, ref, f.c.fresh("hvval", fmt.Sprintf("(Array %s %s)", ks, so))))
+		setHeap(st, vk, f.c.define("Mval", f.heapSortOf(vk), sto(vh, ref, f.c.fresh("hvval", fmt.Sprintf("(Array %s %s)", ks, so)))))
 	}
 	ln := f.lazyHeap(st, "map:len")
-	st.heaps["map:len"] = f.c.define("Mlen", f.heapSortOf("map:len"), sto(ln, ref, f.c.fresh("hvlen", SBV64)))
+	setHeap(st, "map:len", f.c.define("Mlen", f.heapSortOf("map:len"), sto(ln, ref, f.c.fresh("hvlen", SBV64))))
 }
 
 // havocAll makes every heap arbitrary.
 func (f *FnEnc) havocAll(st *State) {
+	f.noteWrite(writeRec{Kind: "all"})
 	for _, so := range allClasses {
-		st.heaps[so] = f.c.fresh("Hhv"+className(so), heapSort(so))
+		setHeap(st, so, f.c.fresh("Hhv"+className(so), heapSort(so)))
 	}
 	for k := range st.heaps {
 		if strings.HasPrefix(k, "map:") {
@@ -170,27 +289,10 @@ func (f *FnEnc) bumpAlloc(st *State, R string) {
 	st.alloc = na
 }
 
-// frameObligations emits, per heap class, the obligation that cells outside
-// the regions (and allocated at entry) are unchanged between old and cur.
-func (f *FnEnc) frameObligations(guard string, old, cur *State, rs []Region, name string, pos token.Pos) {
-	for _, so := range allClasses {
-		h0, h1 := old.heaps[so], cur.heaps[so]
-		if h0 == h1 {
-			continue
-		}
-		r := f.c.fresh("fr_ref", SInt)
-		i := f.c.fresh("fr_idx", SBV64)
-		s := f.c.fresh("fr_sub", SBV64)
-		var in []string
-		for _, rg := range rs {
-			if rg.Map == nil && hasClass(rg.Classes, so) {
-				in = append(in, rg.contains(r, i, s))
-			}
-		}
-		hyp := and("(< 0 "+r+")", "(< "+r+" "+old.alloc+")", not(or(in...)))
-		goal := eq(sel(sel(sel(h1, r), i), s), sel(sel(sel(h0, r), i), s))
-		f.c.oblige(Item{Guard: guard, Formula: implies(hyp, goal), Name: name + ":" + className(so), Class: "frame", Pos: f.pos(pos), Text: "cells outside modifies unchanged (" + className(so) + ")"})
-	}
+// mapFrameObligations: maps outside the modifies clause (and allocated at
+// entry) are unchanged between old and cur.  (Cells of the class heaps are
+// covered write by write, see writeObligations.)
+func (f *FnEnc) mapFrameObligations(guard string, old, cur *State, rs []Region, name string, pos token.Pos) {
 	// map heaps
 	keys := map[string]bool{}
 	for k := range old.heaps {
@@ -411,7 +513,10 @@ func (f *FnEnc) runDefers(fr *Frame, st *State, R string) {
 		}
 		pre := st.clone()
 		g := f.c.define("dg", SBool, and(R, d.active))
+		savedG := f.curGuard
+		f.curGuard = g
 		f.callWith(fr, st, g, nil, &d.call.Call, d.args, d.fnv, d.call.Pos())
+		f.curGuard = savedG
 		m := f.mergeStates(st, pre, d.active)
 		*st = *m
 	}
@@ -563,6 +668,9 @@ func (f *FnEnc) closureFromValue(fr *Frame, st *State, v ssa.Value) *closureRec 
 					if mc, ok := s.Val.(*ssa.MakeClosure); ok {
 						rec = fr.closures[mc]
 					}
+					if fnv, ok := s.Val.(*ssa.Function); ok {
+						rec = &closureRec{fn: fnv}
+					}
 				}
 			}
 			if n == 1 {
@@ -707,7 +815,11 @@ func (f *FnEnc) applyContract(fr *Frame, st *State, R string, con *Contract, nam
 		}
 	}
 	if con.Fresh && len(res.L) > 0 {
-		f.c.assume(R, and("(<= "+pre.alloc+" "+res.L[0]+")", "(< "+res.L[0]+" "+st.alloc+")"))
+		ref := res.L[0]
+		if _, isIface := res.T.Underlying().(*types.Interface); isIface {
+			ref = res.L[1] // payload object of the interface value
+		}
+		f.c.assume(R, and("(<= "+pre.alloc+" "+ref+")", "(< "+ref+" "+st.alloc+")"))
 	}
 	return res
 }
